@@ -1,7 +1,7 @@
 from vpkg.core import Unit
 from vpkg import csrc
 _t = csrc.Tree()
-_u = [f.name for f in _t.by_file["/repo/src/highlevel/bidib_highlevel_util.c"]]
+_u = [f.name for f in _t.by_file[csrc.REPO + "/src/highlevel/bidib_highlevel_util.c"]]
 _keep = ["bidib_stop", "bidib_start_pointer", "bidib_init_threads", "bidib_init_rwlocks", "bidib_init_mutexes", "bidib_set_lowlevel_debug_mode"]
 UNITS = [
     Unit(name="C16.stop", src="units/C16/lifecycle.c", defines=["VP_H_STOP"], functions=["bidib_stop"], props=["C16"], no_dfcc=True,
@@ -13,7 +13,7 @@ UNITS = [
          note="two sessions from process start; every flush interval, config ok/bad, interface answering or not, debug mode on/off; loop-free: complete"),
     Unit(name="C16.table_reset", src="units/C16/table_reset.c", functions=["bidib_node_state_table_reset"], props=["C16"], no_dfcc=True,
          kind="bounded", bound="one node, each of its three queues holds <= 2 (arbitrary) entries; loops unwound completely for that size",
-         remove_bodies=[f.name for f in _t.by_file["/repo/src/transmission/bidib_transmission_node_states.c"] if f.name != "bidib_node_state_table_reset"],
+         remove_bodies=[f.name for f in _t.by_file[csrc.REPO + "/src/transmission/bidib_transmission_node_states.c"] if f.name != "bidib_node_state_table_reset"],
          extra_flags=["--nondet-static", "--unwind", "5"], covers=1, min_obligations=6, timeout=300,
          stubbed_contracts=["GHashTable iteration (one node)", "GQueue lazy model"]),
 ]
